@@ -2,7 +2,9 @@
 hook-driven late-cancel test and the window family (worker held at every yield point of Poll / the TaskExecutor wrapper
 x client operations completed meanwhile), the burst family (k pollers / workers parked on the empty queue, j >= 2 Adds back
 to back, the woken consumer withheld) and the preload family (extreme instants / equal instants in different representations
-queued with ordinary elements before polling starts); DESIGN.md §7.18, notes/C18.md."""
+queued with ordinary elements before polling starts) and the race family (2-4 goroutines free-running ExecuteAt / ExecuteAfter /
+Cancel on the same 1-2 identifiers, judged by interleaving-independent accounting: the atomicity of the identifier-map steps
+that the model assumes; thorough tier also under the race detector); DESIGN.md §7.18, notes/C18.md."""
 from . import lib
 
 LEVEL = "proof"
@@ -21,12 +23,22 @@ def run(ctx):
     if thorough:
         for k in range(4):
             ctx.seed += 1000
-            ctx.corr(hx, ["run", "--scripts", "500", "--len", "16", "--hists", "256", "--grid", "50", "--hook", "2000", "--windows", "12", "--burst", "6", "--preload", "150"],
+            ctx.corr(hx, ["run", "--scripts", "500", "--len", "16", "--hists", "256", "--grid", "50", "--hook", "2000", "--windows", "12", "--burst", "6", "--preload", "150", "--race", "10"],
                      cases_name="cases%d.v" % k)
         ctx.seed -= 4000
+        # the race family once more under the race detector: the identifier map and the queue are only touched under their mutexes
+        # (a report makes the harness exit with status 66 = harness-failure VIOLATION)
+        try:
+            hxr = ctx.go_build("c18", race=True)
+            ctx.corr(hxr, ["run", "--only", "race", "--race", "4", "--raceops", "200"], cases_name="cases_race.v")
+            ctx.assumptions.append("race-detector build of the harness ran the race family (concurrent ExecuteAt/ExecuteAfter/Cancel on shared identifiers, workers running) without a report")
+        except RuntimeError as ex:
+            ctx.log("race build unavailable: %s" % ex)
+            ctx.assumptions.append("race-detector build not available on this machine: data-race freedom of TaskExecutor unchecked")
     else:
-        ctx.corr(hx, ["run", "--scripts", "200", "--len", "12", "--hists", "96", "--grid", "50", "--hook", "600", "--windows", "6", "--burst", "3", "--preload", "60"])
+        ctx.corr(hx, ["run", "--scripts", "200", "--len", "12", "--hists", "96", "--grid", "50", "--hook", "600", "--windows", "6", "--burst", "3", "--preload", "60", "--race", "4"])
     ctx.assumptions += [
+        "ATOMICITY: TaskExecutor.ExecuteAt/ExecuteAfter(id), Cancel(id) and the wrapper's clean-up are single steps of the model (add_step, tcancel_step, the WDeliv step) because the code holds queuedElementsMutex across each whole read-modify-write of queuedElements and the queue; this is tied to the code by the free-running race family (unique token per task; per identifier ran + Cancel=true + pending <= scheduled and >= 1, exactly-one accounting per round of one task vs. concurrent Cancels, Size() <= #identifiers at every sampled instant, Size() = 0 after Cancel of every identifier) and, in the thorough tier, the race detector - not by a proof about sync.Mutex; C18_refuted_split_cancel / C18_refuted_split_cancel_twice show that every TaskExecutor clause fails when Cancel is cut into look-up / element.Cancel() / Delete with another call in between",
         "Queue.Add's shutdown test and its push are one atomic step of the model (the code tests IsShutdown before taking heapMutex; an Add racing with Shutdown was not reproduced in 3000 trials)",
         "PanicOnModificationsAfterShutdown, DontWaitForShutdown/shutdownWG and Poll(waitIfEmpty=false) are outside the model; workers are Poll(true) loops as in Executor.startBackgroundWorkers",
         "timer accuracy and scheduler latency are runtime behaviour: the timing runs judge recorded stamps with a guard band of one grid step (50 ms); the timer is modelled as 'fires at or after its time'",
